@@ -472,6 +472,50 @@ func rejectedThenAllowed() *sched.Scenario {
 	}
 }
 
+// ---- S11: a publisher that was quiet for longer than the idle-handler
+// time-to-live (its handler has been cleaned up) announces again: what was
+// synced before the silence is still the stop point
+func announceAfterIdleCleanup() *sched.Scenario {
+	name := "S11-announcement-after-the-idle-handler-was-cleaned-up"
+	return &sched.Scenario{
+		Name: name,
+		Setup: func(e *sched.Exec) ([]sched.Thread, func()) {
+			w := schedfx.New(e, schedfx.Options{Pubs: 1, ChainLen: 3, Announce: true, SubOpts: []dagsync.Option{dagsync.IdleHandlerTTL(time.Minute)}})
+			p, ch := w.Pubs[0], w.Chains[0]
+			time.Sleep(5 * time.Minute) // virtual: the cleaner has removed the idle handler
+			threads := []sched.Thread{
+				{Name: "A", Fn: func() {
+					e.Log("A latest-before=%d", w.Latest(0))
+					e.Log("A announce pub0[2]")
+					if err := w.Sub.Announce(context.Background(), ch.Cids[2], p.AddrInfo()); err != nil {
+						e.Log("A announce-error %v", err)
+					}
+				}},
+			}
+			return threads, finish(e, w)
+		},
+		Check: func(e *sched.Exec) []sched.Finding {
+			out := basicFindings(e, name)
+			f, _ := e.Data.(*final)
+			if f == nil || len(out) > 0 {
+				return out
+			}
+			lv := schedfx.ParseLog(e.Obs())
+			for _, l := range e.Obs() {
+				if strings.HasPrefix(l, "A latest-before=") && l != "A latest-before=0" {
+					out = append(out, sched.Finding{Sig: name + ":latest-synced-forgotten-while-idle", Msg: l + " (block[0] was synced before the silence)"})
+					return out
+				}
+			}
+			if fmt.Sprint(lv.Hooks[0]) != "[2 1]" {
+				out = append(out, sched.Finding{Sig: name + ":ad-reported-more-than-once", Msg: fmt.Sprintf("hook log %v, want [2 1] (block[0] was reported before the silence)", lv.Hooks[0])})
+			}
+			out = append(out, perPublisher(name, 0, lv, f, 2, false)...)
+			return out
+		},
+	}
+}
+
 // ---- S5: two explicit syncs with different scoped hooks
 func scoped() *sched.Scenario {
 	name := "S5-scoped-hooks"
@@ -534,7 +578,7 @@ func scoped() *sched.Scenario {
 
 func TestCheck(t *testing.T) {
 	r := vp.New("C08", "model_checking",
-		"scenarios over the real subscriber built with the instrumentation overlay (gated in-memory publishers, chains of 3-4 signed ads, first ad pre-synced): S1 burst of 3 announcements to one publisher; S2 the same with a failing block request; S3 k publishers x 2 announcements with MaxAsyncConcurrency unset/1/2; S4 announcements plus an explicit sync (queried head) of the same publisher; S5 two explicit syncs of one publisher with different scoped hooks; S8 the burst of S1 under MaxAsyncConcurrency(2), i.e. with free slots; S9 an entries sync of a publisher whose handler was removed overlapping an announcement / an explicit sync of that publisher; S10 an allow filter rejecting one peer, which announces the publisher's new head before / after the publisher does. All interleavings of harness threads, library goroutines (watcher, per-announcement handler, distributor), publisher requests and hook calls at the scheduling points (every lock, atomic, channel operation, select, spawn, request, hook call, observation) up to the preemption bound. states = distinct decision states; transitions = scheduling steps; traces = executions of the real code.",
+		"scenarios over the real subscriber built with the instrumentation overlay (gated in-memory publishers, chains of 3-4 signed ads, first ad pre-synced): S1 burst of 3 announcements to one publisher; S2 the same with a failing block request; S3 k publishers x 2 announcements with MaxAsyncConcurrency unset/1/2; S4 announcements plus an explicit sync (queried head) of the same publisher; S5 two explicit syncs of one publisher with different scoped hooks; S8 the burst of S1 under MaxAsyncConcurrency(2), i.e. with free slots; S9 an entries sync of a publisher whose handler was removed overlapping an announcement / an explicit sync of that publisher; S10 an allow filter rejecting one peer, which announces the publisher's new head before / after the publisher does; S11 an announcement after a silence longer than the idle-handler time-to-live (virtual time). All interleavings of harness threads, library goroutines (watcher, per-announcement handler, distributor), publisher requests and hook calls at the scheduling points (every lock, atomic, channel operation, select, spawn, request, hook call, observation) up to the preemption bound. states = distinct decision states; transitions = scheduling steps; traces = executions of the real code.",
 		"cooperative scheduling at synchronization operations; select statements try cases in source order; bursts of 3 announcements, at most 3 publishers",
 		"discovery requests are made in a free-running warm-up sync before the explored part",
 	)
@@ -548,7 +592,7 @@ func TestCheck(t *testing.T) {
 	// S8: the burst of S1 under a limit of concurrent announce-triggered syncs
 	// that leaves slots free (one publisher, limit 2): announcements of one
 	// publisher are handled one after the other whatever the limit is
-	scs := []*sched.Scenario{burstOf("S6b-reannounce-synced-head-then-one-new", -1, []int{0, 1}), burstOf("S6-reannounce-synced-head-then-new", -1, []int{0, 1, 2}), multiOf(3, 1, 1, true), burst("S1-burst", -1), burstOf("S8-burst-limit2", -1, []int{1, 2, 3}, dagsync.MaxAsyncConcurrency(2)), multi(2, 0), multi(2, 1), mixed(), scoped(), entriesOfHandlerlessPublisher("announce"), entriesOfHandlerlessPublisher("explicit"), rejectedThenAllowed()}
+	scs := []*sched.Scenario{burstOf("S6b-reannounce-synced-head-then-one-new", -1, []int{0, 1}), burstOf("S6-reannounce-synced-head-then-new", -1, []int{0, 1, 2}), multiOf(3, 1, 1, true), burst("S1-burst", -1), burstOf("S8-burst-limit2", -1, []int{1, 2, 3}, dagsync.MaxAsyncConcurrency(2)), multi(2, 0), multi(2, 1), mixed(), scoped(), entriesOfHandlerlessPublisher("announce"), entriesOfHandlerlessPublisher("explicit"), rejectedThenAllowed(), announceAfterIdleCleanup()}
 	if thorough {
 		scs = append(scs, burst("S2-burst-failing-request", 2), multi(2, 2), multi(3, 1), multi(3, 2))
 	}
